@@ -105,7 +105,7 @@ func (w *world1) genDatagram(t *rapid.T) dgram {
 		r := ref.Report{ShortID: id, Timeslot: drawSlot(t, s.now, s.M.Offset, "slot"), Power: drawPower(t, capacity, "power")}
 		return r, key
 	}
-	switch c := rapid.IntRange(0, 16).Draw(t, "dgClass"); c {
+	switch c := rapid.IntRange(0, 17).Draw(t, "dgClass"); c {
 	case 0: // random bytes
 		n := rapid.IntRange(0, 200).Draw(t, "len")
 		return dgram{b: rapid.SliceOfN(rapid.Byte(), n, n).Draw(t, "bytes"), class: "random-bytes"}
@@ -241,6 +241,33 @@ func (w *world1) genDatagram(t *rapid.T) dgram {
 			b[pos] ^= byte(rapid.IntRange(1, 255).Draw(t, "powerXor"))
 		}
 		return dgram{b: b, class: "altered-copy-of-held-report"}
+	case 17: // an unacceptable leading record with an authentic, acceptable report BEHIND it
+		// (at offset 80, after some padding, or twice): a datagram is one report
+		var head []byte
+		switch rapid.IntRange(0, 3).Draw(t, "headKind") {
+		case 0:
+			r, key := wellFormed()
+			r.Sig = ref.Sign(key, r.SigningBytes())
+			head = r.Encode()
+			pos := rapid.IntRange(96, 639).Draw(t, "headSigBit")
+			head[pos/8] ^= 1 << (uint(pos) % 8)
+		case 1:
+			k := keyFor("never-authorized-2")
+			head = ref.SignedReport(k, 4000000, s.now, 5).Encode()
+		case 2:
+			id, key, _ := pickDev()
+			head = ref.SignedReport(key, id, s.now, uint64(rapid.IntRange(0, 1).Draw(t, "sentinel"))).Encode()
+		default:
+			head = rapid.SliceOfN(rapid.Byte(), 80, 80).Draw(t, "headBytes")
+		}
+		pad := rapid.SampledFrom([]int{0, 0, 0, 17, 80}).Draw(t, "pad")
+		id, key, _ := pickDev()
+		good := ref.SignedReport(key, id, s.now, 2).Encode()
+		b := append(append(append([]byte{}, head...), make([]byte, pad)...), good...)
+		if rapid.Bool().Draw(t, "twice") {
+			b = append(b, good...)
+		}
+		return dgram{b: b, class: "authentic-report-behind-unacceptable-head"}
 	default: // valid report with trailing bytes (judged by its leading 80 bytes)
 		r, key := wellFormed()
 		r.Sig = ref.Sign(key, r.SigningBytes())
@@ -298,7 +325,7 @@ func bucket(v, lo int64) string {
 }
 
 func TestC01Datagrams(t *testing.T) {
-	ev.Rule("C01: per case one world (window offset 2016k for k in 0..3, 1-3 devices with drawn capacities, one banned id, one never-authorized key) and 40-120 datagrams through the real UDP socket, each at a drawn clock value (boundaries offset+{0,431,432,433,3199,3200,3599..3601,4031..4033,4464}); classes: random bytes 0..200, well-formed signed reports with slot/power from the boundary sets, single/multi bit flips, field swaps, truncation/extension, re-signing under every other key in the system (other devices, GCA, temp key, server key, fresh key, banned key), signatures over wrong signing bytes, banned/unknown ids, second valid signature; oracle = reference acceptance predicate + reference model compared with the full server state and the persisted log after every datagram; non-trivial = decodable datagram violating at most one acceptance condition; distinct by (class, violated condition, clock-distance bucket, window-position bucket, power class, length)")
+	ev.Rule("C01: per case one world (window offset 2016k for k in 0..3, 1-3 devices with drawn capacities, one banned id, one never-authorized key) and 40-120 datagrams through the real UDP socket, each at a drawn clock value (boundaries offset+{0,431,432,433,3199,3200,3599..3601,4031..4033,4464}); classes: random bytes 0..200, well-formed signed reports with slot/power from the boundary sets, single/multi bit flips, field swaps, truncation/extension, re-signing under every other key in the system (other devices, GCA, temp key, server key, fresh key, banned key), signatures over wrong signing bytes, banned/unknown ids, second valid signature, an unacceptable leading record followed by an authentic acceptable report; oracle = reference acceptance predicate + reference model compared with the full server state and the persisted log after every datagram; non-trivial = decodable datagram violating at most one acceptance condition; distinct by (class, violated condition, clock-distance bucket, window-position bucket, power class, length)")
 	rapid.Check(t, func(t *rapid.T) {
 		k := rapid.IntRange(0, 3).Draw(t, "week")
 		w := buildWorld(t, "C01", k, rapid.IntRange(1, 3).Draw(t, "nDev"), true)
